@@ -49,13 +49,57 @@ def rand_token(rng):
     return bytes(rng.randrange(256) for _ in range(n)).hex()
 
 
-def gen_scenario(rng, racy=False, collide=False):
+def sibling_family(rng):
+    """Distinct legal tokens that a sloppy key function could merge: same bytes + trailing zero bytes, leading zero bytes,
+    proper prefix / extension, same bytes in another order, all-zero tokens of different lengths, length-8 boundary."""
+    base = bytes([rng.randrange(1, 256)] + [rng.randrange(256) for _ in range(rng.choice([0, 0, 1, 2]))])
+    if base[-1] == 0:
+        base = base[:-1] + b"\x07"
+    fam = [base, base + b"\x00", base + b"\x00\x00", b"\x00" + base, b"\x00\x00" + base,
+           base + bytes([rng.randrange(1, 256)]), (base + b"\x00" * 8)[:8], (b"\x00" * 8 + base)[-8:]]
+    if len(base) > 1:
+        fam += [base[:-1], base[::-1], base[1:] + base[:1]]
+    if rng.random() < 0.3:
+        fam += [b"\x00", b"\x00\x00", b"\x00" * 8]
+    out = []
+    for t in fam:
+        h = t.hex()
+        if 1 <= len(t) <= 8 and h not in out:
+            out.append(h)
+    return out
+
+
+SIBLING_PAIRS = [("2a", "2a00"), ("07", "070000"), ("2a", "002a"), ("00", "0000"), ("0102", "0201"), ("0102", "01"),
+                 ("2a", "2a00000000000000"), ("abcd", "abcd00"), ("abcd", "0000abcd")]
+
+
+def sibling_templates(x, y, n=0):
+    """The shapes the property names, for two distinct tokens x, y that only a sloppy key function would merge:
+    a stale duplicate of the answer to y while x is pending; an unsolicited answer carrying y while x is pending;
+    x and y outstanding together, answered in either order; the same on the stream transport and with block-wise."""
+    m = 40000 + 10 * n
+    return [
+        "scn udp 0 do:1:%s:non peer:non:%s:%d:a1 do:2:%s:non peer:non:%s:%d:a1 peer:non:%s:%d:b2 settle" % (y, y, m, x, y, m + 1, x, m + 2),
+        "scn udp 0 do:1:%s:non peer:non:%s:%d:zz peer:non:%s:%d:ok settle" % (x, y, m, x, m + 1),
+        "scn udp 0 do:1:%s:con do:2:%s:con peer:pig:%s:@2:y1 peer:pig:%s:@1:x1 settle" % (x, y, y, x),
+        "scn udp 1 do:1:%s:con do:2:%s:non peer:ack:-:@1:0 peer:con:%s:%d:x1 peer:non:%s:%d:y1 settle" % (x, y, x, m, y, m + 1),
+        "scn tcp 0 do:1:%s:con peer:resp:%s:0:a1 do:2:%s:con peer:resp:%s:0:a1 peer:resp:%s:0:b2 settle" % (y, y, x, y, x),
+        "scn tcp 0 do:1:%s:con do:2:%s:con peer:resp:%s:0:y1 peer:resp:%s:0:x1 settle" % (x, y, y, x),
+        "scn tcp 1 do:1:%s:con peer:resp:%s:0:zz do:2:%s:con peer:resp:%s:0:x1 peer:resp:%s:0:y1 settle" % (x, y, y, x, y),
+    ]
+
+
+def gen_scenario(rng, racy=False, collide=False, siblings=False):
     tr = rng.choice(["udp", "udp", "tcp"])
     bw = rng.choice([0, 0, 1])
     ncall = rng.randint(2, 6)
     toks = []
+    family = sibling_family(rng) if siblings else None
     if collide:
         toks = [COLL_A, COLL_B]
+    if family:
+        toks = rng.sample(family, min(len(family), rng.randint(2, min(5, ncall + 1))))
+        ncall = max(ncall, len(toks))
     while len(toks) < ncall:
         if toks and rng.random() < 0.18:
             toks.append(rng.choice(toks))           # deliberately equal token
@@ -92,7 +136,9 @@ def gen_scenario(rng, racy=False, collide=False):
             c, t, typ = rng.choice(started)
             if t in ("nil", "-"):
                 t = rand_token(rng)
-            if rng.random() < 0.12:
+            if family and rng.random() < 0.35:
+                t = rng.choice(family)               # a sibling of the tokens in play (pending, completed or never used)
+            elif rng.random() < 0.12:
                 t = rand_token(rng)                  # unsolicited token
             if tr == "tcp":
                 if bw and rng.random() < 0.2:
@@ -252,6 +298,15 @@ def gen_lines(ctx):
         L.append(gen_scenario(rng))
     for _ in range(400 if thorough else 60):
         L.append(gen_scenario(rng, collide=True))
+    # near-collision token families (distinct tokens that only a sloppy key function merges)
+    for n, (x, y) in enumerate(SIBLING_PAIRS):
+        L += sibling_templates(x, y, n) + sibling_templates(y, x, n)
+    for n in range(60 if thorough else 8):
+        fam = sibling_family(rng)
+        x, y = rng.sample(fam, 2)
+        L += sibling_templates(x, y, n)
+    for _ in range(4000 if thorough else 500):
+        L.append(gen_scenario(rng, siblings=True))
     for _ in range(6000 if thorough else 600):
         L.append(gen_racy(rng))
     for i in range(3000 if thorough else 450):
@@ -369,16 +424,61 @@ def explore(ctx, art):
                            "reports inj=0/1 per scenario with the real Token.Hash and colliding scenarios are judged too (F13)")
 
 
+LASTGOOD = os.path.join(common.VERIF, "checks", "lastgood", "C03")
+
+
+def _restore_generated():
+    """The failing-input search must not depend on today's source being translatable: when a generated file this property
+    needs is missing (the extractor fails closed and writes nothing), the last good copy is put in place so that model,
+    judge and driver still build; the translator failure itself is reported by standard_prepare."""
+    for f in GENERATED:
+        dst = os.path.join(common.GENERATED, f)
+        src = os.path.join(LASTGOOD, f)
+        if not os.path.exists(dst) and os.path.exists(src):
+            with common.Lock():
+                if not os.path.exists(dst):
+                    open(dst, "w").write(open(src).read())
+
+
+def _save_lastgood(ctx):
+    if any(k == "translator" for k, _, _ in ctx.broken):
+        return
+    os.makedirs(LASTGOOD, exist_ok=True)
+    for f in GENERATED:
+        src = os.path.join(common.GENERATED, f)
+        dst = os.path.join(LASTGOOD, f)
+        try:
+            cur = open(src).read()
+            if not os.path.exists(dst) or open(dst).read() != cur:
+                open(dst, "w").write(cur)
+        except OSError:
+            pass
+
+
+def _prepare(ctx):
+    _restore_generated()
+    art = common.standard_prepare(ctx, MODULES, hx=False, test=True, generated=GENERATED)
+    if not art.get("driver"):
+        # a driver built from the last translatable source still evaluates model and judge for the search
+        old = os.path.join(common.LEAN, ".lake", "build", "bin", "drv_c03")
+        if os.path.exists(old):
+            art["driver"] = old
+            ctx.notes.append("driver could not be rebuilt; the search uses the previously built drv_c03")
+    if os.environ.get("VERIF_REPO") is None:
+        _save_lastgood(ctx)
+    return art
+
+
 def run(ctx):
     _install_local_known()
-    art = common.standard_prepare(ctx, MODULES, hx=False, test=True, generated=GENERATED)
+    art = _prepare(ctx)
     if art.get("test") and art.get("driver"):
         explore(ctx, art)
     return common.finish(ctx)
 
 
 def replay(ctx, rep):
-    art = common.standard_prepare(ctx, MODULES, hx=False, test=True, generated=GENERATED)
+    art = _prepare(ctx)
     lines = rep.get("input") or []
     if not lines:
         print("replay file names no failing input:", rep.get("no_longer_checks"))
